@@ -279,7 +279,7 @@ namespace avel {
 
         #if defined(AVEL_AVX512VL) || defined(AVEL_AVX10_1)
         auto mask = b << N;
-        return mask4x64f{__mmask8((decay(m) & ~mask) | mask)};
+        return mask4x64f{__mmask8((decay(m) & ~(decltype(mask)(1) << N)) | mask)};
 
         #elif defined(AVEL_AVX)
         auto ret = _mm256_blend_pd(decay(m), _mm256_castsi256_pd(_mm256_set1_epi64x(b ? -1ll : 0)), 1 << N);
